@@ -336,20 +336,21 @@ Proof. rewrite concat_app. cbn [concat]. rewrite app_nil_r. reflexivity. Qed.
 Ltac ccat := repeat rewrite concat_app; cbn [concat app]; repeat rewrite app_nil_r;
              repeat rewrite <- app_assoc; cbn [app]; try reflexivity.
 
-Lemma block_lines_spec folded ind trail c0 t0 : (ind <> 0)%nat -> item_start c0 ->
+Lemma block_lines_spec folded ind trail j c0 t0 : (ind <> 0)%nat -> (j < ind)%nat ->
+  mem_N c0 in_scan_block_scalar_breaks_0 = false -> c0 <> 32 ->
   ble (N.of_nat ind) trail ->
   forall more fuel s ch t r chunks breaks,
   t = ch :: r -> forallb txtc t = true ->
   forallb (fun '(ks, t) => bl_le ind ks && wf_btext t) more = true ->
   s_col s = N.of_nat ind ->
-  s_rest s = t ++ [10] ++ body_text ind more ++ bl trail ++ c0 :: t0 ->
+  s_rest s = t ++ [10] ++ body_text ind more ++ bl trail ++ sp j ++ c0 :: t0 ->
   (length more < fuel)%nat ->
   exists chunks',
     block_lines_f fuel folded (N.of_nat ind) s ch chunks breaks =
-    Ok (after s (t ++ [10] ++ body_text ind more ++ bl trail), chunks', [10], repeat [10] (length trail)) /\
+    Ok (after s (t ++ [10] ++ body_text ind more ++ bl trail ++ sp j), chunks', [10], repeat [10] (length trail)) /\
     concat chunks' = concat chunks ++ concat breaks ++ t ++ block_body folded t more.
 Proof.
-  intros Hind Hc0 Htr. destruct (item_start_facts _ Hc0) as [Hc0n Hc032].
+  intros Hind Hj Hc0n Hc032 Htr.
   induction more as [|[k t'] more IH]; intros fuel s ch t r chunks breaks Et Ht Hmore Hcol Hr Hf;
     (destruct fuel as [|f]; [cbn [length] in Hf; lia|]); cbn [block_lines_f].
   - cbn [body_text map concat app] in *.
@@ -357,26 +358,26 @@ Proof.
     rewrite (forward_after t s _ (Forall_txtc_nocr _ Ht) Hr). cbn [bind].
     pose proof (rest_after _ _ _ Hr) as Hr1.
     rewrite (scan_line_break_lf _ _ Hr1). cbn [bind].
-    assert (Hr2 : s_rest (after (after s t) [10]) = bl trail ++ sp 0 ++ c0 :: t0)
+    assert (Hr2 : s_rest (after (after s t) [10]) = bl trail ++ sp j ++ c0 :: t0)
       by (apply (rest_after [10]); exact Hr1).
     assert (Hbb : scan_block_scalar_breaks (after (after s t) [10]) (N.of_nat ind) =
-                  Ok (after (after (after s t) [10]) (bl trail ++ sp 0), repeat [10] (length trail))).
+                  Ok (after (after (after s t) [10]) (bl trail ++ sp j), repeat [10] (length trail))).
     { eapply scan_block_scalar_breaks_spec; [exact Hc0n | | | exact Htr | | exact Hr2].
       - lia.
       - right; split; [lia | exact Hc032].
       - pose proof (col_after_lf (after s t) []) as H. cbn [app] in H. exact H. }
-    rewrite Hbb. cbn [bind sp repeat]. rewrite app_nil_r.
-    assert (Hcol3 : s_col (after (after (after s t) [10]) (bl trail)) = 0).
-    { rewrite <- !after_app. pose proof (col_after_bl s t trail [] (Forall_nil _)) as H.
-      rewrite !app_nil_r in H. exact H. }
-    unfold at_content. rewrite Hcol3. replace (0 =? N.of_nat ind) with false by lia. cbn [bind].
+    rewrite Hbb. cbn [bind].
+    assert (Hcol3 : s_col (after (after (after s t) [10]) (bl trail ++ sp j)) = N.of_nat j).
+    { rewrite <- !after_app. pose proof (col_after_bl s t trail (sp j) (sp_colc j)) as H.
+      rewrite sp_length in H. exact H. }
+    unfold at_content. rewrite Hcol3. replace (N.of_nat j =? N.of_nat ind) with false by lia. cbn [bind].
     eexists. split.
     + rewrite <- !after_app, <- !app_assoc. reflexivity.
     + cbn [block_body]. ccat.
   - cbn [forallb] in Hmore. apply andb_true_iff in Hmore as [Ht' Hmore].
     apply andb_true_iff in Ht' as [Hk Ht'].
     destruct (wf_btext_inv _ Ht') as (x' & r' & Et' & Hx' & Htt').
-    assert (Hr0 : s_rest s = t ++ 10 :: (bl k ++ sp ind ++ x' :: (r' ++ [10] ++ body_text ind more ++ bl trail ++ c0 :: t0))).
+    assert (Hr0 : s_rest s = t ++ 10 :: (bl k ++ sp ind ++ x' :: (r' ++ [10] ++ body_text ind more ++ bl trail ++ sp j ++ c0 :: t0))).
     { rewrite Hr. unfold body_text. cbn [map concat]. rewrite Et'. rewrite <- !app_assoc. reflexivity. }
     rewrite (line_count s t _ Ht Hr0). cbn [bind]. rewrite (prefix_app s t _ Hr0).
     rewrite (forward_after t s _ (Forall_txtc_nocr _ Ht) Hr0). cbn [bind].
@@ -396,7 +397,7 @@ Proof.
     { unfold s3. rewrite <- !after_app.
       pose proof (col_after_bl s t k (sp ind) (sp_colc ind)) as H. rewrite sp_length in H.
       exact H. }
-    assert (Hr3 : s_rest s3 = t' ++ [10] ++ body_text ind more ++ bl trail ++ c0 :: t0).
+    assert (Hr3 : s_rest s3 = t' ++ [10] ++ body_text ind more ++ bl trail ++ sp j ++ c0 :: t0).
     { unfold s3. apply rest_after. rewrite Hr2, Et', <- !app_assoc. reflexivity. }
     unfold at_content. rewrite Hcol3, N.eqb_refl.
     assert (Hp3 : peek s3 0 = Ok x') by (eapply peek0; rewrite Hr3, Et'; reflexivity).
@@ -432,17 +433,22 @@ Proof.
     rewrite <- !app_assoc. reflexivity.
 Qed.
 
-Lemma value_spec_block vsp folded h lead indent first more trail :
+Lemma block_scan_core vsp folded h lead indent first more trail j c0 :
   wf_value (VBlock vsp folded h lead indent first more) = true -> bl_le indent trail = true ->
-  value_spec (VBlock vsp folded h lead indent first more) trail.
+  (j < indent)%nat -> mem_N c0 in_scan_block_scalar_breaks_0 = false -> c0 <> 32 ->
+  forall s t0, s_col s <> 0 ->
+    s_rest s = value_text (VBlock vsp folded h lead indent first more) trail ++ sp j ++ c0 :: t0 ->
+    value_scan s (if folded then 62 else 124) =
+    Ok (after s (value_text (VBlock vsp folded h lead indent first more) trail ++ sp j),
+        value_meaning (VBlock vsp folded h lead indent first more) trail).
 Proof.
-  cbn [wf_value]. intros H Htrail.
+  cbn [wf_value]. intros H Htrail Hj Hc0n Hc032.
   apply andb_true_iff in H as [H Hlead]. apply andb_true_iff in H as [H Hmore]. apply andb_true_iff in H as [H Hfirst].
   apply andb_true_iff in H as [H Hexpl]. apply andb_true_iff in H as [H Hind].
   apply andb_true_iff in H as [_ Hcm].
   apply negb_true_iff, Nat.eqb_neq in Hind.
   destruct (wf_btext_inv _ Hfirst) as (x & r & Ex & Hx & Htf).
-  unfold value_spec. cbn [value_text value_meaning].
+  cbn [value_text value_meaning].
   set (c := if folded then 62 else 124).
   set (HDRREST := print_inds h indent ++ sp (h_sp h) ++ print_comment (h_comment h) ++ [10]).
   set (BODY := bl lead ++ sp indent ++ first ++ [10] ++ body_text indent more ++ bl trail).
@@ -451,20 +457,7 @@ Proof.
                   = c :: HDRREST ++ BODY).
   { unfold print_header, HDRREST, BODY, print_inds, body_text, c. cbn [app]. rewrite <- ?app_assoc. reflexivity. }
   rewrite Etext.
-  exists c, (HDRREST ++ BODY). split; [reflexivity|].
-  split; [unfold stopc, lbc, c; destruct folded; repeat split; try discriminate; reflexivity|].
-  intros s c0 t0 Hcol Hc0' Hr. pose proof (Hc0' eq_refl) as Hc0.
-  exists (c :: HDRREST ++ BODY), []. split; [cbn [print_ltails map concat]; rewrite app_nil_r; reflexivity|].
-  split; [reflexivity|].
-  assert (Hends : exists a, c :: HDRREST ++ BODY = a ++ [10] ++ bl trail).
-  { destruct (body_ends indent first more trail) as [a Ha].
-    exists (c :: HDRREST ++ bl lead ++ sp indent ++ a). unfold BODY. rewrite Ha.
-    change (c :: HDRREST ++ ?z) with ([c] ++ HDRREST ++ z).
-    change (c :: HDRREST ++ ?z) with ([c] ++ HDRREST ++ z).
-    rewrite <- ?app_assoc. reflexivity. }
-  split.
-  { intros _. destruct Hends as [a Ha]. rewrite Ha.
-    pose proof (col_after_bl s a trail [] (Forall_nil _)) as Hc. rewrite !app_nil_r in Hc. exact Hc. }
+  intros s t0 Hcol Hr.
   (* the scan *)
   unfold value_scan. replace (mem_N c in_tokenize_1) with true by (unfold c; destruct folded; reflexivity).
   unfold scan_block_scalar.
@@ -474,7 +467,7 @@ Proof.
   rewrite Hf1. cbn [bind].
   pose proof (rest_after [c] s _ Hr) as Hr1. set (s1 := after s [c]) in *.
   (* indicators *)
-  assert (Hxh : exists xh th, sp (h_sp h) ++ print_comment (h_comment h) ++ [10] ++ BODY ++ c0 :: t0 = xh :: th /\ (xh = 32 \/ xh = 10)).
+  assert (Hxh : exists xh th, sp (h_sp h) ++ print_comment (h_comment h) ++ [10] ++ BODY ++ sp j ++ c0 :: t0 = xh :: th /\ (xh = 32 \/ xh = 10)).
   { destruct (h_sp h) as [|n] eqn:Ehs.
     - destruct (h_comment h) as [tc|]; [cbn [comment_ok Nat.eqb negb andb] in Hcm; discriminate|].
       cbn [sp repeat print_comment app]. eexists; eexists; split; [reflexivity | right; reflexivity].
@@ -486,11 +479,11 @@ Proof.
   2:{ intros He. rewrite He in Hexpl. apply Nat.leb_le in Hexpl. lia. }
   cbn [bind].
   set (s2 := after s1 (print_inds h indent)) in *.
-  assert (Hr2 : s_rest s2 = sp (h_sp h) ++ print_comment (h_comment h) ++ 10 :: (BODY ++ c0 :: t0)).
+  assert (Hr2 : s_rest s2 = sp (h_sp h) ++ print_comment (h_comment h) ++ 10 :: (BODY ++ sp j ++ c0 :: t0)).
   { unfold s2. rewrite (rest_after _ _ _ Hr1'). rewrite <- Exh. reflexivity. }
   rewrite (scan_block_scalar_ignored_line_spec s2 _ _ _ Hcm Hr2). cbn [bind].
   set (s3 := after s2 (sp (h_sp h) ++ print_comment (h_comment h) ++ [10])) in *.
-  assert (Hr3 : s_rest s3 = bl lead ++ sp indent ++ x :: (r ++ [10] ++ body_text indent more ++ bl trail ++ c0 :: t0)).
+  assert (Hr3 : s_rest s3 = bl lead ++ sp indent ++ x :: (r ++ [10] ++ body_text indent more ++ bl trail ++ sp j ++ c0 :: t0)).
   { unfold s3. erewrite rest_after; [| rewrite Hr2, <- !app_assoc; reflexivity].
     unfold BODY. rewrite Ex. rewrite <- ?app_assoc. reflexivity. }
   assert (Hcol3 : s_col s3 = 0).
@@ -514,7 +507,7 @@ Proof.
           specialize (Hlead _ Hn0). apply Nat.leb_le in Hlead. exact Hlead. }
       cbn [bind app]. f_equal. f_equal. lia. }
   rewrite Hind4. cbn [bind].
-  assert (Hr4 : s_rest s4 = first ++ [10] ++ body_text indent more ++ bl trail ++ c0 :: t0).
+  assert (Hr4 : s_rest s4 = first ++ [10] ++ body_text indent more ++ bl trail ++ sp j ++ c0 :: t0).
   { unfold s4. rewrite (rest_after _ _ _ (eq_trans Hr3 (app_assoc _ _ _))), Ex. reflexivity. }
   assert (Hcol4 : s_col s4 = N.of_nat indent).
   { unfold s4. destruct (exists_last (l := c :: HDRREST)) as (a & b & Eab); [discriminate|].
@@ -524,7 +517,7 @@ Proof.
   unfold at_content. rewrite Hcol4, N.eqb_refl.
   assert (Hp4 : peek s4 0 = Ok x) by (eapply peek0; rewrite Hr4, Ex; reflexivity).
   rewrite Hp4. cbn [bind]. replace (is_end x) with false by charfact. cbn [negb bind].
-  destruct (block_lines_spec (c =? c_gt) indent trail c0 t0 Hind Hc0 (bl_le_ble _ _ Htrail) more (fuel_of s4) s4 x first r
+  destruct (block_lines_spec (c =? c_gt) indent trail j c0 t0 Hind Hj Hc0n Hc032 (bl_le_ble _ _ Htrail) more (fuel_of s4) s4 x first r
               [] (repeat [10] (length lead)) Ex Htf Hmore Hcol4 Hr4) as (chunks' & Hrun & Hcat).
   { unfold fuel_of. rewrite Hr4, !app_length. pose proof (body_text_length indent more). lia. }
   rewrite Hrun. cbn [bind].
@@ -536,4 +529,56 @@ Proof.
   - cbn [concat app] in Hcat. rewrite concat_repeat_lf in Hcat.
     destruct (h_chomp h); cbn [chomp_opt chomp_tail].
     all: repeat rewrite concat_app; cbn [concat]; rewrite ?concat_repeat_lf, ?app_nil_r, Hcat; ccat.
+Qed.
+
+Lemma value_spec_block vsp folded h lead indent first more trail :
+  wf_value (VBlock vsp folded h lead indent first more) = true -> bl_le indent trail = true ->
+  value_spec (VBlock vsp folded h lead indent first more) trail.
+Proof.
+  intros Hwf Htrail.
+  pose proof (block_scan_core vsp folded h lead indent first more trail 0) as HCORE.
+  revert Hwf. cbn [wf_value]. intros H. pose proof H as Hwf.
+  apply andb_true_iff in H as [H Hlead]. apply andb_true_iff in H as [H Hmore]. apply andb_true_iff in H as [H Hfirst].
+  apply andb_true_iff in H as [H Hexpl]. apply andb_true_iff in H as [H Hind].
+  apply andb_true_iff in H as [_ Hcm].
+  apply negb_true_iff, Nat.eqb_neq in Hind.
+  unfold value_spec. revert HCORE. cbn [value_text value_meaning]. intros HCORE.
+  set (c := if folded then 62 else 124) in *.
+  set (HDRREST := print_inds h indent ++ sp (h_sp h) ++ print_comment (h_comment h) ++ [10]).
+  set (BODY := bl lead ++ sp indent ++ first ++ [10] ++ body_text indent more ++ bl trail).
+  assert (Etext : print_header folded h indent ++ bl lead ++ sp indent ++ first ++ [10] ++
+                  concat (map (fun '(ks, t) => bl ks ++ sp indent ++ t ++ [10]) more) ++ bl trail
+                  = c :: HDRREST ++ BODY).
+  { unfold print_header, HDRREST, BODY, print_inds, body_text, c. cbn [app]. rewrite <- ?app_assoc. reflexivity. }
+  rewrite Etext in *.
+  exists c, (HDRREST ++ BODY). split; [reflexivity|].
+  split; [unfold stopc, lbc, c; destruct folded; repeat split; try discriminate; reflexivity|].
+  intros s c0 t0 Hcol Hc0' Hr. pose proof (Hc0' eq_refl) as Hc0.
+  exists (c :: HDRREST ++ BODY), []. split; [cbn [print_ltails map concat]; rewrite app_nil_r; reflexivity|].
+  split; [reflexivity|].
+  assert (Hends : exists a, c :: HDRREST ++ BODY = a ++ [10] ++ bl trail).
+  { destruct (body_ends indent first more trail) as [a Ha].
+    exists (c :: HDRREST ++ bl lead ++ sp indent ++ a). unfold BODY. rewrite Ha.
+    change (c :: HDRREST ++ ?z) with ([c] ++ HDRREST ++ z).
+    change (c :: HDRREST ++ ?z) with ([c] ++ HDRREST ++ z).
+    rewrite <- ?app_assoc. reflexivity. }
+  split.
+  { intros _. destruct Hends as [a Ha]. rewrite Ha.
+    pose proof (col_after_bl s a trail [] (Forall_nil _)) as Hc. rewrite !app_nil_r in Hc. exact Hc. }
+  destruct (item_start_facts _ Hc0) as [Hc0n Hc032].
+  specialize (HCORE c0 Hwf Htrail ltac:(lia) Hc0n Hc032 s t0 Hcol).
+  cbn [sp repeat app] in HCORE. rewrite app_nil_r in HCORE. apply HCORE. exact Hr.
+Qed.
+
+(* the block scalar directly followed by a comment line that is indented less than the scalar *)
+Lemma value_spec_ic_block vsp folded h lead indent first more trail :
+  wf_value (VBlock vsp folded h lead indent first more) = true -> bl_le indent trail = true ->
+  value_spec_ic (VBlock vsp folded h lead indent first more) trail.
+Proof.
+  intros Hwf Htrail m _ Hm c r Ec s t0 Hcol Hr.
+  cbn [icomment_value_ok] in Hm. apply Nat.ltb_lt in Hm.
+  assert (c = if folded then 62 else 124).
+  { cbn [value_text] in Ec. unfold print_header in Ec. destruct folded; cbn [app] in Ec; inversion Ec; reflexivity. }
+  subst c.
+  apply (block_scan_core vsp folded h lead indent first more trail (S m) 35 Hwf Htrail Hm eq_refl ltac:(discriminate) s t0 Hcol Hr).
 Qed.
